@@ -12,6 +12,7 @@ Design rules that make generated operations valid by construction:
 * input-object cycles only run through nullable positions.
 """
 import collections
+import random
 
 UNSET = ("<unset>",)
 
@@ -404,6 +405,13 @@ class SchemaGen(object):
                         aname = cand
                 taken.add(aname)
                 args.append(self.make_input_value(aname, self.input_type_expr()))
+            # a non-null argument with a default sometimes gets a required twin of the same type (two locations
+            # that expect one type but differ in having a default); drawn from a side stream so that the
+            # main stream of the generator is what it was
+            for a in list(args):
+                if a.type[0] == "nonnull" and a.has_default and \
+                        random.Random("twin:%s:%r" % (a.name, a.default)).random() < 0.4:
+                    args.append(SInput(a.name + "_req", a.type))
         f = SField(name, t, args, self.desc(0.25), self.deprecation(),
                    ("py_" + name) if rng.random() < 0.15 else None)
         self.field_pool[name] = f
